@@ -136,6 +136,8 @@ pub fn create_raw_dict_from_source<R: io::Read, W: io::Write>(
         source
             .read_to_end(&mut buf)
             .expect("Could not read from source");
+        // Even a tiny source must not produce a dictionary bigger than requested
+        buf.truncate(dict_size);
         output.write_all(&buf).expect("Could not write to output");
         return;
     }
@@ -192,6 +194,15 @@ pub fn create_raw_dict_from_source<R: io::Read, W: io::Write>(
         "create_dict: {epoch_counter} epochs written, writing {} segments",
         pool.len()
     );
+    // The dictionary must not be bigger than `dict_size`:
+    // drop the lowest scoring segments until the rest fits
+    let mut pool_size: usize = pool.iter().map(|segment| segment.0.raw.len()).sum();
+    while pool_size > dict_size {
+        match pool.pop() {
+            Some(segment) => pool_size -= segment.0.raw.len(),
+            None => break,
+        }
+    }
     // Write the dictionary with the highest scoring segment last because
     // closer items can be represented with a smaller offset
     while let Some(segment) = pool.pop() {
